@@ -73,6 +73,14 @@ def check_run(chk, cfg, lines, keep):
     if cfg["sampler"] == "minipcn_smc" and res["ckpts"]:
         k = max(1, res["target"].n_like // 2)
         r1 = smcrun.run_smc(cfg, fault_at=k, record_checkpoints=True)
+        if r1["status"] == "fault":
+            # a likelihood call that was handed points and raised still counts: the points WERE asked for
+            chk.count("interrupted_runs")
+            rep = int(r1["sampler"].n_likelihood_evaluations)
+            if rep != r1["target"].points_like:
+                chk.fail("reported evaluations = points the likelihood was asked to evaluate", {"cfg": cfg, "interrupted_at_likelihood_call": k},
+                         f"after an interruption inside likelihood call {k}: reported {rep}, the likelihood was asked for {r1['target'].points_like} points",
+                         {"clause": "count", "interrupted": True})
         if r1["status"] == "fault" and r1["ckpts"]:
             r2 = smcrun.resume_smc(cfg, r1["ckpts"][-1]["bytes"])
             chk.count("resumed_runs")
